@@ -62,6 +62,7 @@ class DefaultTrackerHandler(ResultHandler):
         self._what = what
         self._constraint_tolerance = constraint_tolerance
         self._sources = set() if sources is None else sources
+        self._optimal: tuple[FunctionResults, FunctionResults] | None = None
         self["results"] = None
 
     def handle_event(self, event: Event) -> None:
@@ -80,12 +81,22 @@ class DefaultTrackerHandler(ResultHandler):
             filtered_results: FunctionResults | None = None
             match self._what:
                 case "best":
-                    filtered_results = _update_optimal_result(
-                        self["results"],
+                    # The stored result may have been reset or replaced:
+                    if self._optimal is None or self["results"] is not self._optimal[0]:
+                        self._optimal = (
+                            None
+                            if self["results"] is None
+                            else (self["results"], self["results"])
+                        )
+                    optimal = _update_optimal_result(
+                        self._optimal,
                         results,
                         transformed_results,
                         self._constraint_tolerance,
                     )
+                    if optimal is not None:
+                        self._optimal = optimal
+                        filtered_results = optimal[0]
                 case "last":
                     filtered_results = _get_last_result(
                         results,
